@@ -144,7 +144,9 @@ def tlc(ctx, module, cfg_text, name, env=None, workers=1, timeout=900, heap="6g"
     if env:
         e.update(env)
     e.pop("JAVA_TOOL_OPTIONS", None)
-    cmd = ["timeout", str(timeout), "java", "-Xmx" + heap, "-Xss64m", "-XX:+UseParallelGC"]
+    # TLC leaves an empty directory in java.io.tmpdir at every start: keep it inside the scratch directory of the run
+    os.makedirs(os.path.join(d, "tmp"), exist_ok=True)
+    cmd = ["timeout", str(timeout), "java", "-Xmx" + heap, "-Xss64m", "-XX:+UseParallelGC", "-Djava.io.tmpdir=" + os.path.join(d, "tmp")]
     if deque:
         cmd.append("-Dtlc2.tool.queue.IStateQueue=StateDeque")
     cmd += ["-cp", JARS, "tlc2.TLC", "-workers", str(workers), "-metadir", os.path.join(d, "meta"),
